@@ -30,6 +30,31 @@ type upper string
 
 func (u upper) MarshalText() ([]byte, error) { return bytes.ToUpper([]byte(u)), nil }
 
+type shade string
+
+func (s shade) Dark() bool { return s == "black" }
+
+type colour int
+
+func (c colour) String() string { return fmt.Sprintf("colour-%d", int(c)) }
+
+type omit struct {
+	A []int16 `nbt:"a,omitempty"`
+	B bool    `nbt:"b,omitempty"`
+	C int32   `nbt:"c,omitempty"`
+	D uint16  `nbt:"d,omitempty"`
+	E float64 `nbt:"e,omitempty"`
+	F any     `nbt:"f,omitempty"`
+	G *int32  `nbt:"g,omitempty"`
+	H string  `nbt:"h,omitempty"`
+	Z int8    `nbt:"z"`
+}
+
+type embHolder struct {
+	*Emb
+	Z int8 `nbt:"z"`
+}
+
 type asList struct {
 	V []int32 `nbt:"v,list"`
 	W []int64 `nbt:"w,list"`
@@ -56,7 +81,9 @@ func nbtValues() []struct {
 		LA: []int64{-1, 2}, ULA: []uint64{5}, FLA: [2]int64{3, 4}, LS: []string{"a", "", "bcd"}, LL: [][]int16{{1, 2}, {}, {3}},
 		LC: []inner{{1, "p"}, {}}, FL: [2]int16{4, 5}, C: inner{-1, "q"}, M: map[string]int32{"k": 1},
 		Any: map[string]any{"z": []float64{1.5}}, Raw: nbt.RawMessage{Type: nbt.TagCompound, Data: refnbt.AppendPayload(nil, sampleOf(refnbt.Compound))},
-		Dyn: mustDyn(sampleOf(refnbt.Compound)), Snbt: nbt.StringifiedMessage(`{q:"it's",n:[1b,2b]}`), P: &i32, Tail: 0x0a0b0c0d}
+		Dyn: mustDyn(sampleOf(refnbt.Compound)), Snbt: nbt.StringifiedMessage(`{q:"it's",n:[1b,2b]}`), P: &i32,
+		U16: 65534, U32: 0xfffffffd, U64: 1 << 63, F64: -1.5, NB: namedBytes{4, 5, 6}, FI8: [2]int8{-7, 8}, FBo: [2]bool{false, true},
+		UIA: []uint32{9}, FULA: [2]uint64{10, 11}, Txt: textVal{"SHOUT"}, Fold: 11, Any2: inner{13, "v"}, Emb: &Emb{12}, Tail: 0x0a0b0c0d}
 	return []struct {
 		id string
 		v  any
@@ -75,8 +102,20 @@ func nbtValues() []struct {
 		{"[]RawMessage", []nbt.RawMessage{{Type: nbt.TagInt, Data: []byte{0, 0, 0, 1}}, {Type: nbt.TagInt, Data: []byte{0, 0, 0, 2}}}},
 		{"*dynbt.Value", mustDyn(all)}, {"*dynbt.Value-scalar", dynbt.NewLong(5)}, {"*dynbt.Value-list", dynbt.NewList(dynbt.NewString("a"), dynbt.NewString("b"))},
 		{"StringifiedMessage", nbt.StringifiedMessage(`{a:1b,b:[I;1,2],c:"x y",d:[1L,2L],e:[{f:1.5f},{g:2.5d}],h:[B;1b,2b],i:[L;3L],j:3s,k:[[1,2],[3]],l:[a,b],m:[]}`)},
-		{"StringifiedMessage-scalar", nbt.StringifiedMessage(`12345`)},
-		{"TextMarshaler", upper("shout")}, {"*int32", &i32},
+		{"StringifiedMessage-scalar", nbt.StringifiedMessage(`12345`)}, {"StringifiedMessage-list", nbt.StringifiedMessage(`[1.5d, 2.5d]`)},
+		{"StringifiedMessage-int-array", nbt.StringifiedMessage(`[I; 1, 2]`)}, {"StringifiedMessage-byte-array", nbt.StringifiedMessage(`[B;1b]`)},
+		{"StringifiedMessage-long-array", nbt.StringifiedMessage(`[L;1L,2L]`)}, {"StringifiedMessage-list-of-compounds", nbt.StringifiedMessage(`[{a:1},{a:2}]`)},
+		{"TextMarshaler", upper("shout")}, {"*TextMarshaler", &textVal{"Quiet"}}, {"*int32", &i32}, {"nil-*int32", (*int32)(nil)},
+		{"[]any-int32", []any{int32(1), int32(2)}}, {"[]any-int64", []any{int64(1)}}, {"string-with-methods", shade("red")},
+		{"map-Stringer-key", map[colour]int8{3: 1}}, {"map-interface-compound", map[string]any{"k": any(map[string]any{})}},
+		{"struct-omitempty-every-kind", omit{}}, {"struct-omitempty-filled", omit{A: []int16{1}, B: true, C: 1, D: 2, E: 1.5, F: int8(1), G: &i32, H: "h"}},
+		{"struct-dynbt-by-value", struct {
+			V dynbt.Value `nbt:"v"`
+		}{*mustDyn(sampleOf(refnbt.List))}},
+		{"*struct-dynbt-by-value", &struct {
+			V dynbt.Value `nbt:"v"`
+		}{*mustDyn(sampleOf(refnbt.List))}},
+		{"struct-nil-embedded-pointer", embHolder{Z: 1}}, {"struct-embedded-pointer", embHolder{&Emb{5}, 1}}, {"*dynbt.Value-zero", &dynbt.Value{}},
 	}
 }
 
@@ -148,7 +187,8 @@ func wireWriteOps() []*WriteOp {
 	field("Float", wf("1.5", pk.Float(1.5)))
 	field("Double", wf("1.5", pk.Double(1.5)))
 	field("VarInt", wf("0", pk.VarInt(0)), wf("128", pk.VarInt(128)), wf("16384", pk.VarInt(16384)), wf("2097152", pk.VarInt(2097152)), wf("-1", pk.VarInt(-1)))
-	field("VarLong", wf("0", pk.VarLong(0)), wf("128", pk.VarLong(128)), wf("1<<35", pk.VarLong(1<<35)), wf("-1", pk.VarLong(-1)))
+	field("VarLong", wf("0", pk.VarLong(0)), wf("128", pk.VarLong(128)), wf("1<<14", pk.VarLong(1<<14)), wf("1<<21", pk.VarLong(1<<21)),
+		wf("1<<28", pk.VarLong(1<<28)), wf("1<<35", pk.VarLong(1<<35)), wf("1<<42", pk.VarLong(1<<42)), wf("1<<49", pk.VarLong(1<<49)), wf("1<<56", pk.VarLong(1<<56)), wf("-1", pk.VarLong(-1)))
 	field("String", wf("empty", pk.String("")), wf("a", pk.String("a")), wf("hé世", pk.String("hé世")), wf("len=130", pk.String(text(130))), wf("len=300", pk.String(text(300))))
 	field("Identifier", wf("minecraft:stone", pk.Identifier("minecraft:stone")))
 	field("Position", wf("1,2,3", pk.Position{X: 1, Y: 2, Z: 3}), wf("-1,-1,-1", pk.Position{X: -1, Y: -1, Z: -1}))
@@ -180,7 +220,8 @@ func wireWriteOps() []*WriteOp {
 	field("Tuple", wf("mixed", pk.Tuple{pk.Boolean(true), pk.VarInt(300), pk.String("abc"), pk.Long(1), pk.UUID{1}, pk.ByteArray{1, 2}, pk.Angle(3)}),
 		wf("empty", pk.Tuple{}),
 		wf("with-Opt", pk.Tuple{pk.Boolean(true), pk.Opt{Has: &yes, Field: pk.Int(5)}, pk.Opt{Has: &no, Field: pk.Int(6)},
-			pk.Opt{Has: func() bool { return true }, Field: func() pk.FieldEncoder { return pk.String("hi") }}}),
+			pk.Opt{Has: func() bool { return true }, Field: func() pk.FieldEncoder { return pk.String("hi") }},
+			pk.Opt{Has: &yes, Field: func() pk.Field { v := pk.VarInt(300); return &v }}}),
 		wf("nested", pk.Tuple{pk.VarInt(128), pk.Array([]optStr{{Has: true, Val: "a"}, {}}), pk.FixedBitSet(pattern(3)), pk.NBT(map[string]int32{"k": 1})}))
 
 	// ---- RCON
